@@ -329,6 +329,8 @@ def run_models(spec, acc, api):
         rnd = random.Random(base + i)
         if rnd.random() < 0.5:
             gen = gen_prog.ProgGen(rnd, maxdepth=3, probes=False, typed=True)
+            gen.shadow_params = True  # parameters that are also ASSIGNED in the body (under an if / in a loop) before they are read
+            gen.expr_stmts = True
             prog = inject_pointless(rnd, gen_prog.fix_while_continue(gen.program(), False))
             if rnd.random() < 0.3:
                 prog = copy.deepcopy(CALLEE_TEMPLATE) + prog
